@@ -24,7 +24,8 @@ func init() {
 						continue
 					}
 					for _, id := range []int{1, 4660, 65535} {
-						emit(fmt.Sprintf("%s %s %d %d", kind, cause, id, rng.Intn(2)))
+						emit(fmt.Sprintf("%s %s %d %d", kind, cause, id, 0))
+						emit(fmt.Sprintf("%s %s %d %d", kind, cause, id, 1))
 					}
 				}
 			}
@@ -140,14 +141,47 @@ func init() {
 				return fail("C19", "retry-wrong-client", "Retry wrote nothing on the client it was given (client 1 got %d new writes)", len(tr1.writeList())-before1)
 			}
 			w := tr2.writeList()[nBefore]
-			cancel2()
-			select {
-			case e2 := <-rerr:
-				if e2 == nil || !errors.Is(e2, context.Canceled) {
-					r.Props = append(r.Props, viol("C11", "cancel-wrong-error", "%s/%s: Retry returned %v when its own context was cancelled", kind, cause, e2))
+			if retain {
+				// half of the cases: the broker answers the re-issued request on the NEW connection; the retry handle must
+				// complete on that acknowledgement (C19: "Retry re-issues the same request on the client it is given")
+				if pw, _, e := specDecode(w); e == nil {
+					switch pw.Type {
+					case 0x30:
+						if pw.QoS == 1 {
+							tr2.feed(specAck(0x40, pw.ID))
+						} else {
+							tr2.feed(specAck(0x50, pw.ID))
+							if waitWrites(tr2, nBefore+2) {
+								tr2.feed(specAck(0x70, pw.ID))
+							}
+						}
+					case 0x60:
+						tr2.feed(specAck(0x70, pw.ID))
+					case 0x80:
+						tr2.feed(specSubAck(pw.ID, []byte{1, 2}))
+					case 0xa0:
+						tr2.feed(specAck(0xb0, pw.ID))
+					}
 				}
-			case <-time.After(3 * time.Second):
-				r.Props = append(r.Props, viol("C11", "call-never-returned", "%s/%s: Retry did not return when its context was cancelled", kind, cause))
+				select {
+				case e2 := <-rerr:
+					if e2 != nil {
+						r.Props = append(r.Props, viol("C19", "retry-not-completed-by-ack", "%s/%s: the re-issued request was acknowledged on the new connection but Retry returned %v", kind, cause, e2))
+					}
+				case <-time.After(3 * time.Second):
+					r.Props = append(r.Props, viol("C19", "retry-not-completed-by-ack", "%s/%s: the re-issued request was acknowledged on the new connection but Retry did not return", kind, cause))
+				}
+				cancel2()
+			} else {
+				cancel2()
+				select {
+				case e2 := <-rerr:
+					if e2 == nil || !errors.Is(e2, context.Canceled) {
+						r.Props = append(r.Props, viol("C11", "cancel-wrong-error", "%s/%s: Retry returned %v when its own context was cancelled", kind, cause, e2))
+					}
+				case <-time.After(3 * time.Second):
+					r.Props = append(r.Props, viol("C11", "call-never-returned", "%s/%s: Retry did not return when its context was cancelled", kind, cause))
+				}
 			}
 			tr2.Close()
 			tr1.Close()
